@@ -153,6 +153,7 @@ type Machine struct {
 	pcUnsat bool
 	guide   *sym.Model
 	pcKeys  map[string]bool
+	fmemo   map[string]*sym.Lin // materialised floats by operation key
 	nRound  int
 }
 
@@ -607,6 +608,7 @@ func (m *Machine) finishSample() {
 	for _, d := range m.em.TakeDecls() {
 		m.solver.Send(d)
 	}
+	m.solver.Send("(set-option :timeout 5000)")
 	r := m.solver.Check()
 	m.res.Queries++
 	if r == smt.Unsat && m.res.Status == PathOK {
